@@ -385,6 +385,8 @@ def handles(tier, seed):
             if cls["select"] and o["sel_arch_id"] != cls["archetype_id"]: bad.append("SelectArchetype id %d" % o["sel_arch_id"])
             if not o["sel_ent_faithful"]: bad.append("SelectEntity variant does not carry the same handle")
             if not o["eq_hash"]: bad.append("Eq/Hash/HashSet/HashMap inconsistent")
+        if o.get("errors_ok") is False:
+            bad.append("a failing conversion does not fail as documented (type mismatch: InvalidEntityType; zero generation: InvalidRawEntity)")
             k = r[:4]
             if o["first"] != (k not in seen): bad.append("HashSet first-insert %s for a %s value" % (o["first"], "new" if k not in seen else "repeated"))
             seen.add(k)
@@ -398,6 +400,8 @@ def handles(tier, seed):
             if d["aid"] != ids_order[a] or d["typed_aid"] != ids_order[a] or d["ent_aid"] != ids_order[a] or d["const_id"] != ids_order[a] or d["try"] != want_try \
                or d["from_any_panics"] != [not x for x in want_try] or not d["rt"] or d["sel"] != a or not d["eq"]:
                 violations.append({"tags": ["C14", "C15"], "what": "direct-handle conversions of archetype %d disagree with the table" % a, "at": 0, "event": d, "origin": {"engine": "handles"}})
+        if obs[-1].get("direct_errors_ok") is False:
+            violations.append({"tags": ["C14"], "what": "a direct-handle conversion that must fail (undeclared or other archetype id) does not fail as documented (InvalidEntityType)", "at": 0, "event": {}, "origin": {"engine": "handles"}})
     for p in (tfile, ofile):
         if os.path.exists(p):
             os.remove(p)
